@@ -237,6 +237,7 @@ static void run(jv *s, int idx)
       jv *op = j_get(st, "open");
       for (int i = 0; op && i < op->n; i++) { int fd = (int) op->a[i]->i; char nm[32]; snprintf(nm, sizeof nm, "/o%d", fd); int f = open(mp(nm), O_RDWR | O_CREAT, 0600); dup2(f, fd); if (f != fd) close(f); }
     }
+    else if (!strcmp(fn, "pclose")) { jv *l = j_get(st, "fds"); for (int i = 0; l && i < l->n; i++) close((int) l->a[i]->i); }
     else if (!strcmp(fn, "psig")) {
       jv *m2 = j_get(st, "mask"), *d2 = j_get(st, "disp");
       sigset_t ms2; sigemptyset(&ms2); for (int i = 0; m2 && i < m2->n; i++) sigaddset(&ms2, (int) m2->a[i]->i); sigprocmask(SIG_SETMASK, &ms2, NULL);
